@@ -114,3 +114,6 @@ Definition py_mod (a b : Q) : Q := a - b * inject_Z (Qfloor (a / b)).
 
 Definition py_rotl {A} (l : list A) : list A :=
   match l with [] => [] | x :: r => r ++ [x] end.
+
+Definition py_min_list (l : list Q) : Q := match l with [] => 0 | x :: r => fold_left Qmin r x end.
+Definition py_max_list (l : list Q) : Q := match l with [] => 0 | x :: r => fold_left Qmax r x end.
